@@ -230,7 +230,8 @@ class _Reducer:
         return out
 
     def drive(self, o, g, T=8):
-        o.clear()
+        # both documented forms of clear (storage dropped / storage kept and refilled) are a "cleared state"
+        o.clear(keepshape=bool(self.d.get("seed", 0) & 1))
         outs = []
         for _ in range(T):
             x = (torch.rand((2, 3), generator=g) < 0.5).float()
